@@ -28,6 +28,27 @@ def run(ctx):
     n = LG.run_progress(C, P, 'C02-FLOW-progress', cl)
     C.floor('C02-FLOW-progress.loops', n, 30)
     LG.run_recursion(C, P, 'C02-FLOW-recursion', cl)
+    # the loader never blocks on a lock its own call chain holds (model / file / element lock taken again, one of them exclusive)
+    C.rule('C02-FLOW-selflock', 'no function of the loader closure acquires (blocking) a lock that its call chain already holds with one of the two acquisitions exclusive: parking_lot locks are not reentrant, the load would never return')
+    from locks import LockGraph, own_str
+    G = LockGraph(P)
+    shorts = {P.bodies[x].short for x in cl}
+    nl = 0
+    seen_l = set()
+    for e in G.edges:
+        if e['fn'] not in shorts:
+            continue
+        h, a = e['held'], e['acq']
+        if a.kind != 'blocking' or h.cls != a.cls or not (h.mode == 'W' or a.mode == 'W'):
+            continue
+        nl += 1
+        if e['rel'] in ('same',) or (h.cls == 'Element' and e['rel'] == 'same?'):
+            k = '%s|held=%s@%s|acq=%s@%s|same' % (e['fn'], h.desc(), own_str(h.own), a.desc(), own_str(a.own))
+            if k not in seen_l:
+                seen_l.add(k)
+                C.fail('C02-FLOW-selflock', k, 'the loader takes the %s lock again (%s) while its own call chain holds it (%s): the call never returns' % (h.cls.lower(), a.mode, h.mode), e['where'])
+    if not seen_l:
+        C.ok('C02-FLOW-selflock', 'loader-closure', '%d same-class nested acquisitions with an exclusive side examined, none on the same object' % nl, sample={'examined_edges': nl})
 
     # ---- WHO-line ----------------------------------------------------------------------------------
     funnels = {'ArxmlLexer::error', 'ArxmlLexer::read_comment', 'ArxmlParser::error', 'ArxmlParser::optional_error'}
